@@ -578,13 +578,26 @@ def cfg_class(block, c):
 
 
 # ---- execution ----------------------------------------------------------------------------------------
-def run_history(block, cfg, hist, collect_events=True, table=None, invariants=None):
-    """returns ('rejected', why) | ('fail', sig, msg) | ('ok', events, required)"""
+def run_history(block, cfg, hist, collect_events=True, table=None, invariants=None, followers=False):
+    """returns ('rejected', why) | ('fail', sig, msg) | ('ok', events, required)
+
+    followers: a plain register is attached directly to every output of the block, instantiated after it; being a
+    sequential block itself it must load the value the output had before the edge (composition with the register rule)"""
     Mcls, build = (table or BLOCKS)[block]
     model = Mcls(cfg)
     inw, outw = model.ports(), model.outs()
+    fol = []
+
+    def builder(s, i, o):
+        r = build(s, i, o, cfg)
+        if followers:
+            for k, ow in enumerate(o):
+                f = s.wire('follow_q{}'.format(k), ow.getWidth())
+                py4hw.Reg(s, 'follow{}'.format(k), ow, f)
+                fol.append(f)
+        return r
     try:
-        b = Bench(inw, outw, lambda s, i, o: build(s, i, o, cfg))
+        b = Bench(inw, outw, builder)
     except HarnessError:
         raise
     except Exception as e:
@@ -601,16 +614,22 @@ def run_history(block, cfg, hist, collect_events=True, table=None, invariants=No
                 vec = model.sanitize(vec)       # environment assumptions of the property (counted by the model)
             b.poke(vec)
             b.settle()
-            if t > 0:
+            if True:
+                # before the edge the outputs still show the state reached so far (at t = 0 the power-up state: an edge
+                # that neither resets nor loads must hold it)
                 got, exp = b.read(), [x & mask(w) for x, w in zip(model.out(vec), outw)]
                 if got != exp:
-                    return ('fail', '{}|{}|pre_edge'.format(block, cc),
+                    return ('fail', '{}|{}|{}'.format(block, cc, 'pre_edge' if t else 'power_up_state'),
                             '{} cfg={} cycle {} inputs {}: outputs before the edge {} expected {} (history {})'.format(
                                 block, cfg, t, vec, got, exp, hist[:t + 1]))
             pre = b.read()
             model.tick(vec)
             b.clk(1)
             got, exp = b.read(), [x & mask(w) for x, w in zip(model.out(vec), outw)]
+            if fol and [f.get() for f in fol] != pre:
+                return ('fail', '{}|{}|follower_register_saw_post_edge_value'.format(block, cc),
+                        '{} cfg={} cycle {} inputs {}: registers attached to the outputs loaded {} but the outputs held {} before the edge (history {})'.format(
+                            block, cfg, t, vec, [f.get() for f in fol], pre, hist[:t + 1]))
             if invariants is not None:
                 bad = invariants(model, t, vec, pre, got)
                 if bad:
@@ -632,7 +651,7 @@ def run_history(block, cfg, hist, collect_events=True, table=None, invariants=No
 
 def run_case(case):
     block, cfg, hist = case['block'], case['cfg'], case['hist']
-    r = run_history(block, cfg, hist)
+    r = run_history(block, cfg, hist, followers=bool(case.get('followers', True)))
     if r[0] == 'rejected':
         return discard('rejected_by_constructor', [block + ':rejected'])
     if r[0] == 'fail':
